@@ -311,6 +311,9 @@ class NameFormatParser(Scanner):
             raise UnbalancedBraceError(self)
 
     def parse_braced_string(self):
+        # iterative (a nesting counter instead of one generator per level):
+        # deeply nested braces must not end in RecursionError
+        level = 0
         while True:
             try:
                 token = self.required([self.TEXT, self.RBRACE, self.LBRACE]) 
@@ -319,9 +322,13 @@ class NameFormatParser(Scanner):
             if token.pattern is self.TEXT:
                 yield token.value
             elif token.pattern is self.RBRACE:
-                break
+                if level == 0:
+                    break
+                level -= 1
+                yield token.value
             elif token.pattern is self.LBRACE:
-                yield u'{{{0}}}'.format(''.join(self.parse_braced_string()))
+                level += 1
+                yield token.value
             else:
                 raise ValueError(token)
 
